@@ -53,14 +53,50 @@ func (x *xtr) afterLoop(t ast.Node, kind, call string, state []string, rest func
 }
 
 func (x *xtr) polyBinder() string {
-	if x.poly {
-		return "{α : Type} "
+	return x.typeBinders(x.poly, x.tparams, x.inhabitedBinders())
+}
+
+// the type-parameter binders of a loop definition: only the parameters its variables (and the function's
+// result) mention, so that every one of them is determined by the explicit arguments
+func (x *xtr) loopBinder(inv, state []string) string {
+	tv := map[string]bool{}
+	for _, n := range append(append([]string{}, inv...), state...) {
+		x.env[n].tvars(tv)
 	}
-	return ""
+	for _, r := range x.results {
+		r.tvars(tv)
+	}
+	for _, ex := range x.extras {
+		x.env[ex].tvars(tv)
+	}
+	var ps []string
+	for _, p := range x.tparams {
+		if tv[p] {
+			ps = append(ps, p)
+		}
+	}
+	return x.typeBinders(x.poly, ps, x.inhabitedBinders())
+}
+
+// [Inhabited T] binders for the opaque type parameters: when a struct of the spec has type parameters
+// (its zero value and `Inhabited` instance need them) or a zero value of such a type was written
+func (x *xtr) inhabitedBinders() bool {
+	if x.inhabited {
+		return true
+	}
+	for _, st := range x.structs {
+		if len(st.tparams) > 0 {
+			return true
+		}
+	}
+	return false
 }
 
 // `for ; i < n; i++` whose body assigns neither i nor a variable of n: the fuel is known
 func (x *xtr) countingFuel(s *ast.ForStmt) (string, bool) {
+	if f, ok := x.countdownFuel(s); ok {
+		return f, true
+	}
 	be, ok := s.Cond.(*ast.BinaryExpr)
 	if !ok || be.Op != token.LSS {
 		return "", false
@@ -94,6 +130,38 @@ func (x *xtr) countingFuel(s *ast.ForStmt) (string, bool) {
 		}
 	}
 	return fmt.Sprintf("(Go.countFuel %s %s)", ident(iv.Name), paren(x.intExpr(be.Y))), true
+}
+
+// `for ; i > 0 [&& c ..]; i--` whose body does not assign i: the condition is evaluated at most i + 1 times
+func (x *xtr) countdownFuel(s *ast.ForStmt) (string, bool) {
+	cond := s.Cond
+	for {
+		be, ok := cond.(*ast.BinaryExpr)
+		if !ok {
+			return "", false
+		}
+		if be.Op == token.LAND {
+			cond = be.X
+			continue
+		}
+		iv, ok := be.X.(*ast.Ident)
+		if !ok || be.Op != token.GTR || x.env[iv.Name] == nil || x.env[iv.Name].k != kInt {
+			return "", false
+		}
+		if lit, ok := be.Y.(*ast.BasicLit); !ok || lit.Value != "0" {
+			return "", false
+		}
+		post, ok := s.Post.(*ast.IncDecStmt)
+		if !ok || post.Tok != token.DEC || !isIdent(post.X, iv.Name) {
+			return "", false
+		}
+		inBody := map[string]bool{}
+		x.assigned(s.Body.List, map[string]bool{}, inBody)
+		if inBody[iv.Name] {
+			return "", false
+		}
+		return fmt.Sprintf("(Go.countFuel 0 %s)", ident(iv.Name)), true
+	}
 }
 
 func (x *xtr) forStmt(s *ast.ForStmt, rest func() string) string {
@@ -176,7 +244,7 @@ func (x *xtr) forStmt(s *ast.ForStmt, rest func() string) string {
 		}
 		sig := strings.Join(append([]string{"Nat"}, sty...), " → ")
 		text := fmt.Sprintf("def %s %s%s : %s → Go.Ctl %s %s\n  | %s => Go.Ctl.outOfFuel\n  | %s =>\n%s\n",
-			info.name, x.polyBinder(), x.binders(inv), sig, parenT(x.tupleType(state)), parenT(x.rhoLean()),
+			info.name, x.loopBinder(inv, state), x.binders(inv), sig, parenT(x.tupleType(state)), parenT(x.rhoLean()),
 			strings.Join(append([]string{"0"}, us...), ", "),
 			strings.Join(append([]string{"fuel + 1"}, splitIdents(state)...), ", "),
 			indent(body, 2))
@@ -307,7 +375,7 @@ func (x *xtr) rangeStmt(s *ast.RangeStmt, rest func() string) string {
 		consPat = append(consPat, splitIdents(state)...)
 		x.env = outerEnv
 		text := fmt.Sprintf("def %s %s%s : %s → Go.%s %s %s\n  | %s => Go.%s.next %s\n  | %s =>\n%s\n",
-			info.name, x.polyBinder(), x.binders(inv), strings.Join(sigParts, " → "), kind, parenT(x.tupleType(state)), parenT(x.rhoLean()),
+			info.name, x.loopBinder(inv, state), x.binders(inv), strings.Join(sigParts, " → "), kind, parenT(x.tupleType(state)), parenT(x.rhoLean()),
 			strings.Join(nilPat, ", "), kind, tuple, strings.Join(consPat, ", "), indent(body, 2))
 		text = strings.Replace(text, "  : ", " : ", 1)
 		x.defs = append(x.defs, genFunc{name: info.name, text: fmt.Sprintf("/- loop at line %d of %s -/\n", x.pos(s).Line, x.sp.File) + text})
@@ -544,7 +612,60 @@ func translateExt(fset *token.FileSet, load fileLoader, sp spec, known map[strin
 	}
 	x := &xtr{fset: fset, sp: sp, env: map[string]*xty{}, structs: map[string]*xstruct{}, consts: map[string]xval{},
 		shared: map[string]bool{}, loops: map[ast.Stmt]*loopInfo{}, ptrParams: map[string]bool{}, params: map[string]bool{}, prims: map[string]bool{},
-		aliases: map[string]*xty{}, known: known, uses: map[string]useSpec{}}
+		aliases: map[string]*xty{}, known: known, uses: map[string]useSpec{}, opaque: map[string]string{},
+		ordParams: map[string]bool{}, methods: map[string]*xmethod{}, capVars: map[string]string{}, fnBody: fd.Body}
+	for _, cv := range sp.CapVars {
+		nt := strings.SplitN(cv, "=", 2)
+		if len(nt) != 2 {
+			fail(token.Position{Filename: sp.File}, "spec.CapVars entry %q", cv)
+		}
+		x.capVars[nt[0]] = nt[1]
+	}
+	for _, o := range sp.Opaque {
+		nt := strings.SplitN(o, "=", 2)
+		if len(nt) != 2 {
+			fail(token.Position{Filename: sp.File}, "spec.Opaque entry %q", o)
+		}
+		x.opaque[nt[0]] = nt[1]
+		seen := false
+		for _, p := range x.tparams {
+			seen = seen || p == nt[1]
+		}
+		if !seen { // (two spellings of one Go type may name the same parameter)
+			x.tparams = append(x.tparams, nt[1])
+		}
+	}
+	if sp.FloatAbs != "" {
+		x.tparams = append(x.tparams, sp.FloatAbs)
+		x.ordParams[sp.FloatAbs] = true
+	}
+	// abstract methods of opaque types: "T.M=func(..) R" (does not change the value), "T.M=mut func(..) R"
+	var methodNames []string
+	for _, ms := range sp.Methods {
+		nt := strings.SplitN(ms, "=", 2)
+		tm := strings.SplitN(nt[0], ".", 2)
+		if len(nt) != 2 || len(tm) != 2 {
+			fail(token.Position{Filename: sp.File}, "spec.Methods entry %q", ms)
+		}
+		sig, mut := strings.TrimPrefix(nt[1], "mut "), strings.HasPrefix(nt[1], "mut ")
+		te, err := parser.ParseExpr(sig)
+		if err != nil {
+			fail(token.Position{Filename: sp.File}, "spec.Methods entry %q: %v", ms, err)
+		}
+		ft := x.goTy(te)
+		if ft.k != kFunc || len(ft.results) != 1 || ft.results[0].k == kErr {
+			fail(token.Position{Filename: sp.File}, "spec.Methods entry %q: not a function type with one result", ms)
+		}
+		m := &xmethod{lean: tm[0] + "_" + tm[1], ft: ft, mut: mut, recv: tm[0]}
+		x.methods[nt[0]] = m
+		recvTy := &xty{k: kOpaque, name: tm[0]}
+		pt := &xty{k: kFunc, params: append([]*xty{recvTy}, ft.params...), results: ft.results}
+		if mut {
+			pt.results = []*xty{ft.results[0], recvTy}
+		}
+		x.env[m.lean] = pt
+		methodNames = append(methodNames, m.lean)
+	}
 	for _, u := range sp.Uses {
 		x.uses[u.Go] = u
 	}
@@ -567,20 +688,39 @@ func translateExt(fset *token.FileSet, load fileLoader, sp spec, known map[strin
 			x.aliases[ss.Name] = x.goTy(te)
 			continue
 		}
-		xs := &xstruct{name: ss.Name}
+		xs := &xstruct{name: ss.Name, caps: map[string]bool{}, drop: map[string]bool{}}
+		for _, c := range ss.Caps {
+			xs.caps[c] = true
+		}
+		for _, c := range ss.Drop {
+			xs.drop[c] = true
+		}
+		tv := map[string]bool{}
 		only := map[string]bool{}
 		for _, o := range ss.Only {
 			only[o] = true
 		}
 		for _, fl := range st.Fields.List {
 			for _, n := range fl.Names {
-				if len(ss.Only) > 0 && !only[n.Name] {
+				if len(ss.Only) > 0 && !only[n.Name] || xs.drop[n.Name] {
 					continue
 				}
 				delete(only, n.Name)
 				ft := x.goTy(fl.Type)
 				xs.fields = append(xs.fields, xfield{n.Name, ft})
 				xs.poly = xs.poly || ft.mentionsAny()
+				ft.tvars(tv)
+				if xs.caps[n.Name] {
+					if ft.k != kList {
+						fail(token.Position{Filename: ss.File}, "structSpec.Caps: %s.%s is not a slice", ss.Name, n.Name)
+					}
+					xs.fields = append(xs.fields, xfield{n.Name + "_cap", tInt})
+				}
+			}
+		}
+		for _, p := range x.tparams {
+			if tv[p] {
+				xs.tparams = append(xs.tparams, p)
 			}
 		}
 		if len(ss.Only) > 0 && len(only) > 0 {
@@ -619,9 +759,18 @@ func translateExt(fset *token.FileSet, load fileLoader, sp spec, known map[strin
 		oracle[o] = true
 	}
 	var primBinders []string
+	for _, mn := range methodNames {
+		primBinders = append(primBinders, fmt.Sprintf("(%s : %s)", mn, x.env[mn].lean()))
+	}
 	for _, p := range sp.Prims {
+		if p == "growCap" { // the capacity `append` chooses when it has to grow: (old capacity, new length) ↦ new capacity
+			x.env["growCap"] = &xty{k: kFunc, params: []*xty{tInt, tInt}, results: []*xty{tInt}}
+			primBinders = append(primBinders, "(growCap : Int → Int → Int)")
+			continue
+		}
 		if lt, ok := primTypes[p]; ok { // polymorphic library function, used by name
 			x.prims[p] = true
+			x.poly = x.poly || strings.Contains(lt, "Go.Any α")
 			primBinders = append(primBinders, fmt.Sprintf("(%s : %s)", p, lt))
 			continue
 		}
@@ -666,13 +815,39 @@ func translateExt(fset *token.FileSet, load fileLoader, sp spec, known map[strin
 	if len(oracle) != 0 {
 		x.bad(fd, "spec.Oracles names no parameter: %v", sortedNames(oracle))
 	}
+	var inits []string
 	if fd.Type.Results != nil {
 		for _, r := range fd.Type.Results.List {
-			if len(r.Names) != 0 {
-				x.bad(fd, "named results")
+			ty := x.goTy(r.Type)
+			x.poly = x.poly || ty.mentionsAny()
+			if len(r.Names) == 0 {
+				if x.namedRes != nil {
+					x.bad(fd, "named and unnamed results")
+				}
+				x.results = append(x.results, ty)
+				continue
 			}
-			x.results = append(x.results, x.goTy(r.Type))
-			x.poly = x.poly || x.results[len(x.results)-1].mentionsAny()
+			// named results: local variables that start at their zero value; the function returns the
+			// tuple of their values (nothing is dropped on an error: the error is an Option String)
+			if len(x.results) != len(x.namedRes) {
+				x.bad(fd, "named and unnamed results")
+			}
+			if ty.k == kErr {
+				ty = tErrOpt
+			}
+			for _, n := range r.Names {
+				if n.Name == "_" {
+					x.bad(fd, "blank named result")
+				}
+				x.declare(n, n.Name, ty)
+				z := "none"
+				if ty.k != kErrOpt {
+					z = x.zero(n, ty)
+				}
+				inits = append(inits, fmt.Sprintf("let %s : %s := %s", ident(n.Name), ty.lean(), z))
+				x.results = append(x.results, ty)
+				x.namedRes = append(x.namedRes, n.Name)
+			}
 		}
 		for i, r := range x.results {
 			if r.k == kErr && i != len(x.results)-1 {
@@ -683,7 +858,6 @@ func translateExt(fset *token.FileSet, load fileLoader, sp spec, known map[strin
 	// state returned beside the results
 	asg := map[string]bool{}
 	x.assigned(fd.Body.List, map[string]bool{}, asg)
-	var inits []string
 	if x.recv != "" && asg[x.recv] {
 		if _, isPtr := fd.Recv.List[0].Type.(*ast.StarExpr); isPtr {
 			x.extras = append(x.extras, x.recv)
@@ -692,6 +866,10 @@ func translateExt(fset *token.FileSet, load fileLoader, sp spec, known map[strin
 	// slice / map parameters written in place: the caller sees it, so they are returned too
 	for _, n := range x.inPlaceParams(fd) {
 		x.extras = append(x.extras, n)
+	}
+	if sp.Frag != nil {
+		// the parameters of a fragment are variables of the enclosing function; what it changes is named in Results
+		x.extras = nil
 	}
 	var oracleNames []string
 	for n, ty := range x.env {
@@ -713,6 +891,10 @@ func translateExt(fset *token.FileSet, load fileLoader, sp spec, known map[strin
 		}
 		x.rho = l + " × " + x.env[ex].lean()
 	}
+	if len(x.results) == 0 && len(x.extras) > 0 {
+		// no results: the returned value is the state alone (also inside the loop definitions)
+		x.rho = strings.TrimPrefix(x.rho, "Unit × ")
+	}
 	x.hasExit = scanCtl(fd.Body.List).fuelLoop
 	if x.hasExit {
 		x.ctx = xctx{mode: mOut}
@@ -727,19 +909,12 @@ func translateExt(fset *token.FileSet, load fileLoader, sp spec, known map[strin
 		for i, ex := range x.extras {
 			if i == 0 {
 				v = ident(ex)
-				if len(x.results) != 0 {
-					v = "((), " + v + ")"
-				}
 			} else {
 				v = "(" + v + ", " + ident(ex) + ")"
 			}
 		}
 		return x.ctx.ret(v)
 	})
-	if len(x.results) == 0 && len(x.extras) > 0 {
-		// no results: the returned value is the state alone
-		x.rho = strings.TrimPrefix(x.rho, "Unit × ")
-	}
 	body = joinLines(strings.Join(inits, "\n"), body)
 	rty := x.rho
 	if x.hasExit {
@@ -760,8 +935,11 @@ func translateExt(fset *token.FileSet, load fileLoader, sp spec, known map[strin
 	for _, u := range sp.Uses {
 		moduleImports[sp.Module] = append(moduleImports[sp.Module], "SemaModel.Generated."+u.Module)
 	}
+	if x.usesRtX {
+		moduleImports[sp.Module] = append(moduleImports[sp.Module], "SemaModel.Base.GoRtX")
+	}
 	// callable from functions translated later into the same module, if it is a plain function
-	if !x.hasExit && len(x.extras) == 0 && len(pre) == 0 && fd.Recv == nil {
+	if !x.hasExit && len(x.extras) == 0 && len(pre) == 0 && fd.Recv == nil && x.namedRes == nil && len(x.tparams) == 0 {
 		ft := &xty{k: kFunc, results: x.results}
 		for _, p := range fd.Type.Params.List {
 			for range p.Names {
@@ -783,10 +961,33 @@ func fragmentFunc(fset *token.FileSet, fd *ast.FuncDecl, sp spec) *ast.FuncDecl 
 	}
 	var found []ast.Stmt
 	matches := 0
+	if fr.Case != "" {
+		// the whole body of the one case clause (of a value switch) with this label text
+		ast.Inspect(fd.Body, func(n ast.Node) bool {
+			cc, ok := n.(*ast.CaseClause)
+			if !ok || cc.List == nil {
+				return true
+			}
+			var labels []string
+			for _, e := range cc.List {
+				var b strings.Builder
+				printer.Fprint(&b, fset, e)
+				labels = append(labels, b.String())
+			}
+			if strings.Join(labels, ", ") == fr.Case {
+				matches++
+				found = cc.Body
+			}
+			return true
+		})
+		if matches != 1 || len(found) == 0 {
+			fail(fset.Position(fd.Pos()), "fragment of %s: %d non-empty case clauses are labelled %q", sp.Func, matches, fr.Case)
+		}
+	}
 	ast.Inspect(fd.Body, func(n ast.Node) bool {
 		b, ok := n.(*ast.BlockStmt)
-		if !ok {
-			return true
+		if !ok || fr.Case != "" {
+			return fr.Case == ""
 		}
 		for i, s := range b.List {
 			if !strings.HasPrefix(line(s), fr.First) {
@@ -822,12 +1023,113 @@ func fragmentFunc(fset *token.FileSet, fd *ast.FuncDecl, sp spec) *ast.FuncDecl 
 		rts = append(rts, t)
 	}
 	src := fmt.Sprintf("package p\nfunc f(%s) (%s) { return %s }\n", strings.Join(fr.Params, ", "), strings.Join(rts, ", "), strings.Join(fr.Results, ", "))
+	var zeros []string // zero literals of the results, for the error returns of a fragment with ErrLast
+	if fr.ErrLast {
+		src = fmt.Sprintf("package p\nfunc f(%s) (%s) { return %s }\n", strings.Join(fr.Params, ", "), strings.Join(append(append([]string{}, rts...), "error"), ", "),
+			strings.Join(append(append([]string{}, fr.Results...), "nil"), ", "))
+		for _, t := range rts {
+			switch {
+			case strings.HasPrefix(t, "[]"):
+				zeros = append(zeros, "nil")
+			case t == "bool":
+				zeros = append(zeros, "false")
+			case t == "int" || t == "int64":
+				zeros = append(zeros, "0")
+			case t == "string":
+				zeros = append(zeros, `""`)
+			default:
+				fail(fset.Position(fd.Pos()), "fragment with ErrLast: no zero literal for the result type %s", t)
+			}
+		}
+	}
 	pf, err := parser.ParseFile(fset, "fragment of "+sp.File+":"+sp.Func, src, parser.SkipObjectResolution)
 	if err != nil {
 		fail(fset.Position(fd.Pos()), "fragment signature: %v", err)
 	}
 	nf := pf.Decls[0].(*ast.FuncDecl)
-	nf.Body.List = append(append([]ast.Stmt{}, found...), nf.Body.List...)
+	// a `return` inside the fragment leaves the enclosing function (or closure).  Only the statement text
+	// given as EarlyReturn is accepted, and it means: the fragment ends here with the current values of
+	// its Results.  Any other return is an error.
+	final := nf.Body.List[0].(*ast.ReturnStmt)
+	var rewrite func(ss []ast.Stmt) []ast.Stmt
+	one := func(s ast.Stmt) ast.Stmt {
+		if s == nil {
+			return nil
+		}
+		return rewrite([]ast.Stmt{s})[0]
+	}
+	blk := func(b *ast.BlockStmt) *ast.BlockStmt {
+		if b == nil {
+			return nil
+		}
+		c := *b
+		c.List = rewrite(b.List)
+		return &c
+	}
+	rewrite = func(ss []ast.Stmt) []ast.Stmt {
+		out := make([]ast.Stmt, 0, len(ss))
+		for _, s := range ss {
+			switch t := s.(type) {
+			case *ast.ReturnStmt:
+				if n := len(t.Results); fr.ErrLast && n >= 1 && !isIdent(t.Results[n-1], "nil") {
+					// the enclosing function returns an error here: so does the fragment (zero values beside it)
+					var rs []ast.Expr
+					for _, z := range zeros {
+						ze, err := parser.ParseExpr(z)
+						if err != nil {
+							fail(fset.Position(t.Pos()), "internal: zero literal %s", z)
+						}
+						rs = append(rs, ze)
+					}
+					out = append(out, &ast.ReturnStmt{Return: t.Return, Results: append(rs, t.Results[n-1])})
+					continue
+				}
+				if fr.EarlyReturn == "" || line(t) != fr.EarlyReturn {
+					fail(fset.Position(t.Pos()), "return inside the fragment of %s (fragSpec.EarlyReturn is %q)", sp.Func, fr.EarlyReturn)
+				}
+				out = append(out, &ast.ReturnStmt{Return: t.Return, Results: final.Results})
+			case *ast.BlockStmt:
+				out = append(out, blk(t))
+			case *ast.IfStmt:
+				c := *t
+				c.Body = blk(t.Body)
+				c.Else = one(t.Else)
+				out = append(out, &c)
+			case *ast.ForStmt:
+				c := *t
+				c.Body = blk(t.Body)
+				out = append(out, &c)
+			case *ast.RangeStmt:
+				c := *t
+				c.Body = blk(t.Body)
+				out = append(out, &c)
+			case *ast.SwitchStmt:
+				c := *t
+				nb := *t.Body
+				nb.List = nil
+				for _, cl := range t.Body.List {
+					cc := *cl.(*ast.CaseClause)
+					cc.Body = rewrite(cc.Body)
+					nb.List = append(nb.List, &cc)
+				}
+				c.Body = &nb
+				out = append(out, &c)
+			case *ast.TypeSwitchStmt, *ast.SelectStmt, *ast.LabeledStmt:
+				ast.Inspect(t, func(n ast.Node) bool {
+					if r, ok := n.(*ast.ReturnStmt); ok {
+						fail(fset.Position(r.Pos()), "return inside a %T of the fragment of %s", t, sp.Func)
+					}
+					_, isLit := n.(*ast.FuncLit)
+					return !isLit
+				})
+				out = append(out, s)
+			default:
+				out = append(out, s)
+			}
+		}
+		return out
+	}
+	nf.Body.List = append(rewrite(found), nf.Body.List...)
 	return nf
 }
 
@@ -876,7 +1178,7 @@ func (x *xtr) inPlaceParams(fd *ast.FuncDecl) []string {
 		return true
 	})
 	for n := range hit {
-		if reassigned[n] {
+		if reassigned[n] && x.sp.Frag == nil {
 			x.bad(fd, "parameter %s is both reassigned and written in place", n)
 		}
 	}
@@ -885,6 +1187,7 @@ func (x *xtr) inPlaceParams(fd *ast.FuncDecl) []string {
 
 // library functions that stay abstract: they become leading parameters of the translated function
 var primTypes = map[string]string{
+	"fmtAny":         "Go.Any α → String", // fmt's %v of an interface value
 	"sortFunc":       "{α : Type} → List α → (α → α → Int) → List α",
 	"sortStableFunc": "{α : Type} → List α → (α → α → Int) → List α",
 }
